@@ -220,27 +220,104 @@ theorem fact_q {G : Dkg.Grp} (hG : ValidGrp G) : Fact (Nat.Prime G.q.natAbs) := 
 -- from here on `ZMod p` is a field: obtain the instance with `haveI := fact_p hG`
 variable {G : Dkg.Grp} [Fact (Nat.Prime G.p.natAbs)]
 
+theorem g_unit (hG : ValidGrp G) : cp G G.g ≠ 0 :=
+  @g_ne_zero (gGrp G) ‹Fact (Nat.Prime G.p.natAbs)› hG.vg
+
+theorem h_unit (hG : ValidGrp G) : cp G G.h ≠ 0 :=
+  @g_ne_zero (hGrp G) ‹Fact (Nat.Prime G.p.natAbs)› hG.vh
+
+theorem g_pow_q_eq (hG : ValidGrp G) : cp G G.g ^ G.q.natAbs = 1 :=
+  @g_pow_q (gGrp G) ‹Fact (Nat.Prime G.p.natAbs)› hG.vg
+
+theorem h_pow_q_eq (hG : ValidGrp G) : cp G G.h ^ G.q.natAbs = 1 :=
+  @g_pow_q (hGrp G) ‹Fact (Nat.Prime G.p.natAbs)› hG.vh
+
+theorem fspowm_g (hG : ValidGrp G) (s : Int) (hs : s.natAbs < G.q.natAbs) :
+    ∃ r, fspowm G.tabG G.g s G.p = .ok r ∧ 0 ≤ r ∧ r < G.p ∧ cp G r = cp G G.g ^ s :=
+  @fspowm_val (gGrp G) ‹Fact (Nat.Prime G.p.natAbs)› hG.vg G.tabG G.g s hG.tg (g_unit hG) hs
+
+theorem fspowm_h (hG : ValidGrp G) (s : Int) (hs : s.natAbs < G.q.natAbs) :
+    ∃ r, fspowm G.tabH G.h s G.p = .ok r ∧ 0 ≤ r ∧ r < G.p ∧ cp G r = cp G G.h ^ s :=
+  @fspowm_val (hGrp G) ‹Fact (Nat.Prime G.p.natAbs)› hG.vh G.tabH G.h s hG.th (h_unit hG) hs
+
+theorem fpowm_g (hG : ValidGrp G) (s : Int) (hs : s.natAbs < G.q.natAbs) :
+    ∃ r, fpowm G.tabG G.g s G.p = .ok r ∧ 0 ≤ r ∧ r < G.p ∧ cp G r = cp G G.g ^ s :=
+  @fpowm_val (gGrp G) ‹Fact (Nat.Prime G.p.natAbs)› hG.vg G.tabG G.g s hG.tg (g_unit hG) hs
+
+theorem fpowm_h (hG : ValidGrp G) (s : Int) (hs : s.natAbs < G.q.natAbs) :
+    ∃ r, fpowm G.tabH G.h s G.p = .ok r ∧ 0 ≤ r ∧ r < G.p ∧ cp G r = cp G G.h ^ s :=
+  @fpowm_val (hGrp G) ‹Fact (Nat.Prime G.p.natAbs)› hG.vh G.tabH G.h s hG.th (h_unit hG) hs
+
 /-- `g^s h^s'` through `tmcg_mpz_fspowm` for `|s|, |s'| < q` -/
 theorem pedS_val (hG : ValidGrp G) (s s' : Int)
     (hs : s.natAbs < G.q.natAbs) (hs' : s'.natAbs < G.q.natAbs) :
     ∃ a l, pedS G s s' = .ok (a, l) ∧ 0 ≤ a ∧ a < G.p ∧ 0 ≤ l ∧ l < G.p ∧
       cp G a = cp G G.g ^ s ∧ cp G l = cp G G.g ^ s * cp G G.h ^ s' := by
-  sorry
+  obtain ⟨a, ha, ha0, ha1, hav⟩ := fspowm_g hG s hs
+  obtain ⟨b, hb, hb0, hb1, hbv⟩ := fspowm_h hG s' hs'
+  refine ⟨a, a * b % G.p, ?_, ha0, ha1, (p_bounds hG _).1, (p_bounds hG _).2, hav, ?_⟩
+  · simp only [pedS, ha, hb]
+    rfl
+  · rw [cp_emod hG, cp_mul, hav, hbv]
 
 /-- `g^s h^s'` through `tmcg_mpz_fpowm` for `|s|, |s'| < q` -/
 theorem pedF_val (hG : ValidGrp G) (s s' : Int)
     (hs : s.natAbs < G.q.natAbs) (hs' : s'.natAbs < G.q.natAbs) :
     ∃ l, pedF G s s' = .ok l ∧ 0 ≤ l ∧ l < G.p ∧ cp G l = cp G G.g ^ s * cp G G.h ^ s' := by
-  sorry
+  obtain ⟨a, ha, ha0, ha1, hav⟩ := fpowm_g hG s hs
+  obtain ⟨b, hb, hb0, hb1, hbv⟩ := fpowm_h hG s' hs'
+  refine ⟨a * b % G.p, ?_, (p_bounds hG _).1, (p_bounds hG _).2, ?_⟩
+  · simp only [pedF, ha, hb]
+    rfl
+  · rw [cp_emod hG, cp_mul, hav, hbv]
 
 /-- `g` and `h` are units of order dividing `q`; exponents only matter mod `q` -/
 theorem g_zpow_congr (hG : ValidGrp G) (e e' : Int) (h : cq G e = cq G e') :
     cp G G.g ^ e = cp G G.g ^ e' := by
-  sorry
+  have hmod := (cq_eq_iff hG.vg.q_pos e e').mp h
+  have h1 : ∀ e : Int, cp G G.g ^ (e % G.q) = cp G G.g ^ e := fun e =>
+    @zpow_mod_q (gGrp G) ‹Fact (Nat.Prime G.p.natAbs)› hG.vg (cp G G.g) (g_pow_q_eq hG) (g_unit hG) e
+  rw [← h1 e, ← h1 e', hmod]
 
 theorem h_zpow_congr (hG : ValidGrp G) (e e' : Int) (h : cq G e = cq G e') :
     cp G G.h ^ e = cp G G.h ^ e' := by
-  sorry
+  have hmod := (cq_eq_iff hG.vg.q_pos e e').mp h
+  have h1 : ∀ e : Int, cp G G.h ^ (e % G.q) = cp G G.h ^ e := fun e =>
+    @zpow_mod_q (hGrp G) ‹Fact (Nat.Prime G.p.natAbs)› hG.vh (cp G G.h) (h_pow_q_eq hG) (h_unit hG) e
+  rw [← h1 e, ← h1 e', hmod]
+
+theorem natAbs_lt_of_range {q c : Int} (h : 0 ≤ c ∧ c < q) : c.natAbs < q.natAbs := by
+  omega
+
+/-- `commitList` in list form: every entry is a reduced unit, and the list of field values is
+    the list of `g^a_k h^b_k` -/
+theorem commitList_aux (hG : ValidGrp G) (a b : List Int) (hlen : a.length = b.length)
+    (ha : ∀ c ∈ a, 0 ≤ c ∧ c < G.q) (hb : ∀ c ∈ b, 0 ≤ c ∧ c < G.q) :
+    ∃ C, commitList G a b = .ok C ∧ C.length = a.length ∧
+      (∀ c ∈ C, 0 ≤ c ∧ c < G.p ∧ cp G c ≠ 0) ∧
+      C.map (cp G) = List.zipWith (fun u v => cp G G.g ^ u * cp G G.h ^ v) a b := by
+  induction a generalizing b with
+  | nil =>
+    refine ⟨[], ?_, rfl, by simp, by simp⟩
+    cases b <;> rfl
+  | cons a0 as ih =>
+    cases b with
+    | nil => simp at hlen
+    | cons b0 bs =>
+      obtain ⟨ga, l, hped, -, -, hl0, hl1, -, hlv⟩ := pedS_val hG a0 b0
+        (natAbs_lt_of_range (ha a0 (by simp))) (natAbs_lt_of_range (hb b0 (by simp)))
+      obtain ⟨Cs, hCs, hCl, hCb, hCm⟩ := ih bs (by simpa using hlen)
+        (fun c hc => ha c (List.mem_cons_of_mem _ hc)) (fun c hc => hb c (List.mem_cons_of_mem _ hc))
+      refine ⟨l :: Cs, ?_, by simp [hCl], ?_, ?_⟩
+      · simp only [commitList, hped, hCs]
+        rfl
+      · intro c hc
+        rcases List.mem_cons.mp hc with rfl | hc
+        · refine ⟨hl0, hl1, ?_⟩
+          rw [hlv]
+          exact mul_ne_zero (zpow_ne_zero _ (g_unit hG)) (zpow_ne_zero _ (h_unit hG))
+        · exact hCb c hc
+      · simp only [List.map_cons, List.zipWith_cons_cons, hlv, hCm]
 
 /-- the commitments `commitList` produces are units with the expected value -/
 theorem commitList_val (hG : ValidGrp G) (a b : List Int) (hlen : a.length = b.length)
@@ -248,7 +325,80 @@ theorem commitList_val (hG : ValidGrp G) (a b : List Int) (hlen : a.length = b.l
     ∃ C, commitList G a b = .ok C ∧ C.length = a.length ∧
       (∀ k, k < a.length → 0 ≤ C.getD k 0 ∧ C.getD k 0 < G.p ∧
         cp G (C.getD k 0) = cp G G.g ^ (a.getD k 0) * cp G G.h ^ (b.getD k 0)) := by
-  sorry
+  obtain ⟨C, hC, hCl, hCb, hCm⟩ := commitList_aux hG a b hlen ha hb
+  refine ⟨C, hC, hCl, ?_⟩
+  intro k hk
+  have hkC : k < C.length := by omega
+  have hkb : k < b.length := by omega
+  rw [List.getD_eq_getElem _ _ hkC, List.getD_eq_getElem _ _ hk, List.getD_eq_getElem _ _ hkb]
+  obtain ⟨h0, h1, -⟩ := hCb C[k] (List.getElem_mem hkC)
+  refine ⟨h0, h1, ?_⟩
+  have := List.getElem_of_eq hCm (by simpa using hkC)
+  simpa using this
+
+/-- `cq` commutes with the integer partial sums -/
+theorem cq_polyEvalFrom (G : Dkg.Grp) (x k : Nat) (cs : List Int) :
+    cq G (polyEvalFrom (x : Int) k cs) = polyEvalFrom (x : Fq G) k (cs.map (cq G)) := by
+  induction cs generalizing k with
+  | nil => simp [polyEvalFrom, cq_zero]
+  | cons c cs ih =>
+    simp only [polyEvalFrom, List.map_cons, cq_add, cq_mul, cq_pow, cq_natCast, ih]
+
+/-- `∏ (g^a_k h^b_k)^(x^(k+i)) = g^(Σ a_k x^(k+i)) h^(Σ b_k x^(k+i))` with integer exponent sums -/
+theorem powProd_zip (hG : ValidGrp G) (x : Nat) (a b : List Int) (hlen : a.length = b.length) (k : Nat) :
+    powProdFrom x k (List.zipWith (fun u v => cp G G.g ^ u * cp G G.h ^ v) a b) =
+      cp G G.g ^ polyEvalFrom (x : Int) k a * cp G G.h ^ polyEvalFrom (x : Int) k b := by
+  induction a generalizing b k with
+  | nil =>
+    cases b with
+    | nil => simp [powProdFrom, polyEvalFrom]
+    | cons b0 bs => simp at hlen
+  | cons a0 as ih =>
+    cases b with
+    | nil => simp at hlen
+    | cons b0 bs =>
+      simp only [List.zipWith_cons_cons, powProdFrom, polyEvalFrom]
+      rw [ih bs (by simpa using hlen), zpow_add₀ (g_unit hG), zpow_add₀ (h_unit hG), mul_pow,
+        ← zpow_natCast (cp G G.g ^ a0), ← zpow_natCast (cp G G.h ^ b0), ← zpow_mul, ← zpow_mul]
+      push_cast
+      ring
+
+theorem powProd_map (hG : ValidGrp G) (x : Nat) (a : List Int) (k : Nat) :
+    powProdFrom x k (a.map (fun u => cp G G.g ^ u)) = cp G G.g ^ polyEvalFrom (x : Int) k a := by
+  induction a generalizing k with
+  | nil => simp [powProdFrom, polyEvalFrom]
+  | cons a0 as ih =>
+    simp only [List.map_cons, powProdFrom, polyEvalFrom]
+    rw [ih, zpow_add₀ (g_unit hG), ← zpow_natCast (cp G G.g ^ a0), ← zpow_mul]
+    push_cast
+    rfl
+
+omit [Fact (Nat.Prime G.p.natAbs)] in
+/-- the share the code computes and the integer polynomial value agree mod `q` -/
+theorem cq_evalShare (hG : ValidGrp G) (a : List Int) (x : Nat) :
+    cq G (evalShare G.q a x) = cq G (polyEvalFrom (x : Int) 0 a) := by
+  rw [(evalShare_val G hG.vg.q_pos a x).1, cq_polyEvalFrom]
+  rfl
+
+omit [Fact (Nat.Prime G.p.natAbs)] in
+theorem evalShare_natAbs (hG : ValidGrp G) (a : List Int) (x : Nat) :
+    (evalShare G.q a x).natAbs < G.q.natAbs :=
+  natAbs_lt_of_range (evalShare_val G hG.vg.q_pos a x).2
+
+/-- the right-hand side of equations (2)/(4) for the commitments of an honest dealer -/
+theorem commitProd_commitList (hG : ValidGrp G) (a b : List Int) (hlen : a.length = b.length)
+    (ha : ∀ c ∈ a, 0 ≤ c ∧ c < G.q) (hb : ∀ c ∈ b, 0 ≤ c ∧ c < G.q) (C : List Int)
+    (hC : commitList G a b = .ok C) (x : Nat) :
+    ∃ r, commitProd G.p x C = .ok r ∧ 0 ≤ r ∧ r < G.p ∧
+      cp G r = cp G G.g ^ (evalShare G.q a x) * cp G G.h ^ (evalShare G.q b x) := by
+  obtain ⟨C', hC', -, hCb, hCm⟩ := commitList_aux hG a b hlen ha hb
+  rw [hC] at hC'
+  injection hC' with hC'
+  subst hC'
+  obtain ⟨r, hr, hr0, hr1, hrv⟩ := commitProd_val hG x C (fun c hc => (hCb c hc).2.2)
+  refine ⟨r, hr, hr0, hr1, ?_⟩
+  rw [hrv, hCm, powProd_zip hG x a b hlen 0,
+    g_zpow_congr hG _ _ (cq_evalShare hG a x), h_zpow_congr hG _ _ (cq_evalShare hG b x)]
 
 /-- equation (2) of PedersenVSS / (4) of the DKG holds for the shares of an honest dealer: the left
     side the receiver computes from `(f(x), f'(x))` equals the right side it computes from the
@@ -258,7 +408,10 @@ theorem share_check (hG : ValidGrp G) (a b : List Int) (hlen : a.length = b.leng
     (hC : commitList G a b = .ok C) (x : Nat) :
     ∃ ga l r, pedS G (evalShare G.q a x) (evalShare G.q b x) = .ok (ga, l) ∧
       commitProd G.p x C = .ok r ∧ l = r := by
-  sorry
+  obtain ⟨r, hr, hr0, hr1, hrv⟩ := commitProd_commitList hG a b hlen ha hb C hC x
+  obtain ⟨ga, l, hl, -, -, hl0, hl1, -, hlv⟩ :=
+    pedS_val hG _ _ (evalShare_natAbs hG a x) (evalShare_natAbs hG b x)
+  exact ⟨ga, l, r, hl, hr, cp_inj hG ⟨hl0, hl1⟩ ⟨hr0, hr1⟩ (by rw [hlv, hrv])⟩
 
 /-- the same with the table routine of the public resolution (`tmcg_mpz_fpowm`) -/
 theorem share_check_F (hG : ValidGrp G) (a b : List Int) (hlen : a.length = b.length)
@@ -266,7 +419,10 @@ theorem share_check_F (hG : ValidGrp G) (a b : List Int) (hlen : a.length = b.le
     (hC : commitList G a b = .ok C) (x : Nat) :
     ∃ l r, pedF G (evalShare G.q a x) (evalShare G.q b x) = .ok l ∧
       commitProd G.p x C = .ok r ∧ l = r := by
-  sorry
+  obtain ⟨r, hr, hr0, hr1, hrv⟩ := commitProd_commitList hG a b hlen ha hb C hC x
+  obtain ⟨l, hl, hl0, hl1, hlv⟩ :=
+    pedF_val hG _ _ (evalShare_natAbs hG a x) (evalShare_natAbs hG b x)
+  exact ⟨l, r, hl, hr, cp_inj hG ⟨hl0, hl1⟩ ⟨hr0, hr1⟩ (by rw [hlv, hrv])⟩
 
 /-- conversely: a pair `(s, s')` in range passes the check against the commitments of `(a, b)` iff
     `g^s h^s' = g^f(x) h^f'(x)` -/
@@ -277,12 +433,41 @@ theorem share_check_iff (hG : ValidGrp G) (a b : List Int) (hlen : a.length = b.
     ∃ l r, pedF G s s' = .ok l ∧ commitProd G.p x C = .ok r ∧
       (l = r ↔ cp G G.g ^ s * cp G G.h ^ s' =
         cp G G.g ^ (evalShare G.q a x) * cp G G.h ^ (evalShare G.q b x)) := by
-  sorry
+  obtain ⟨r, hr, hr0, hr1, hrv⟩ := commitProd_commitList hG a b hlen ha hb C hC x
+  obtain ⟨l, hl, hl0, hl1, hlv⟩ := pedF_val hG s s' hs hs'
+  refine ⟨l, r, hl, hr, ?_⟩
+  rw [← hlv, ← hrv]
+  exact ⟨fun h => by rw [h], fun h => cp_inj hG ⟨hl0, hl1⟩ ⟨hr0, hr1⟩ h⟩
+
+/-- `gaList` in list form -/
+theorem gaList_aux (hG : ValidGrp G) (a : List Int) (ha : ∀ c ∈ a, 0 ≤ c ∧ c < G.q) :
+    ∃ ga, gaList G a = .ok ga ∧ (∀ c ∈ ga, 0 ≤ c ∧ c < G.p ∧ cp G c ≠ 0) ∧
+      ga.map (cp G) = a.map (fun u => cp G G.g ^ u) := by
+  induction a with
+  | nil => exact ⟨[], rfl, by simp, by simp⟩
+  | cons a0 as ih =>
+    obtain ⟨v, hv, hv0, hv1, hvv⟩ := fspowm_g hG a0 (natAbs_lt_of_range (ha a0 (by simp)))
+    obtain ⟨gs, hgs, hgb, hgm⟩ := ih (fun c hc => ha c (List.mem_cons_of_mem _ hc))
+    refine ⟨v :: gs, ?_, ?_, ?_⟩
+    · simp only [gaList, hv, hgs]
+      rfl
+    · intro c hc
+      rcases List.mem_cons.mp hc with rfl | hc
+      · exact ⟨hv0, hv1, by rw [hvv]; exact zpow_ne_zero _ (g_unit hG)⟩
+      · exact hgb c hc
+    · simp only [List.map_cons, hvv, hgm]
 
 /-- equation (5): `g^f(x) = ∏ (g^a_k)^(x^k)` for the Feldman commitments `gaList` -/
 theorem feldman_check (hG : ValidGrp G) (a : List Int)
     (ha : ∀ c ∈ a, 0 ≤ c ∧ c < G.q) (ga : List Int) (hga : gaList G a = .ok ga) (x : Nat) :
     ∃ l r, fspowm G.tabG G.g (evalShare G.q a x) G.p = .ok l ∧ commitProd G.p x ga = .ok r ∧ l = r := by
-  sorry
+  obtain ⟨ga', hga', hgb, hgm⟩ := gaList_aux hG a ha
+  rw [hga] at hga'
+  injection hga' with hga'
+  subst hga'
+  obtain ⟨r, hr, hr0, hr1, hrv⟩ := commitProd_val hG x ga (fun c hc => (hgb c hc).2.2)
+  obtain ⟨l, hl, hl0, hl1, hlv⟩ := fspowm_g hG _ (evalShare_natAbs hG a x)
+  refine ⟨l, r, hl, hr, cp_inj hG ⟨hl0, hl1⟩ ⟨hr0, hr1⟩ ?_⟩
+  rw [hlv, hrv, hgm, powProd_map hG x a 0, g_zpow_congr hG _ _ (cq_evalShare hG a x)]
 
 end Tmcg.DkgP
